@@ -11,7 +11,7 @@ import random
 from streamflow.core import utils as sfutils
 from streamflow.core.config import BindingConfig
 from streamflow.core.deployment import DeploymentConfig, FilterConfig, LocalTarget, Target
-from streamflow.core.workflow import Job, Port, Token, Workflow
+from streamflow.core.workflow import Job, Port, Status, Token, Workflow
 from streamflow.cwl import step as cwl_step
 from streamflow.cwl import transformer as cwl_tr
 from streamflow.cwl.combinator import ListMergeCombinator
@@ -27,9 +27,12 @@ from streamflow.workflow.step import (CombinatorStep, DeployStep, ExecuteStep, G
 from streamflow.workflow.token import IterationTerminationToken, JobToken, ListToken, ObjectToken, TerminationToken
 
 from sfv.framework import Ctx, Property
+from sfv.rt.hexs import hx
 from sfv.rt.loop import run_controlled
 from sfv.rt.sfctx import make_context
 from sfv.translate import persist
+
+DRIVER = "Drivers/C08.lean"
 
 SENT = "☠MUTATED"
 STRS = ["a", "step", "x y", "é", "日本", "", "a/b", "0", "$(inputs.x)", "q\"uote", "tab\tx", "😀"]
@@ -154,6 +157,48 @@ def mutate(o, seen=None, depth=0):
         else:
             n += mutate(v, seen, depth + 1)
     return n
+
+
+def foreign_ports(w):
+    """Port objects reachable from the steps of a loaded workflow that are NOT the workflow's own port of that name: a step attribute
+    such as `job_port` must be the very object `workflow.ports[name]` holds (tokens are put on that one)"""
+    out, seen = [], set()
+
+    def walk(o, where, depth):
+        if o is None or isinstance(o, (bool, int, float, str, enum.Enum, type, asyncio.Event, asyncio.Lock, asyncio.Condition, Workflow)):
+            return
+        if id(o) in seen or depth > 8:
+            return
+        seen.add(id(o))
+        if isinstance(o, Port):
+            if w.ports.get(o.name) is not o:
+                out.append(f"{where}: a {type(o).__name__} named {o.name!r} that is not workflow.ports[{o.name!r}]")
+            return
+        if isinstance(o, (list, tuple, set, frozenset)):
+            for x in o:
+                walk(x, where, depth + 1)
+            return
+        if isinstance(o, dict):
+            for k, x in o.items():
+                walk(x, f"{where}[{k!r}]", depth + 1)
+            return
+        if type(o).__module__.split(".")[0] != "streamflow":
+            return
+        names = set(getattr(o, "__dict__", {}).keys())
+        for klass in type(o).__mro__:
+            sl = getattr(klass, "__slots__", ())
+            names.update(sl if isinstance(sl, (tuple, list)) else ())
+        for name in sorted(names):
+            if name in ("context", "workflow"):
+                continue
+            try:
+                walk(getattr(o, name), f"{where}.{name}", depth + 1)
+            except AttributeError:
+                continue
+
+    for n, st in w.steps.items():
+        walk(st, f"steps[{n!r}]", 0)
+    return out
 
 
 # ------------------------------------------------------------------------------------------------
@@ -292,6 +337,13 @@ def build_workflow(rng, context):
             wire(wf.create_step(cls=rng.choice([cwl_step.CWLLoopOutputAllStep, cwl_step.CWLLoopOutputLastStep]), name=name + "-loop-out"), 1, 1)
     for p in rng.sample(ports, min(len(ports), rng.randint(0, 2))):
         wf.output_ports[rs(rng)] = p.name
+    # steps are saved in whatever state they are in
+    for st in wf.steps.values():
+        if rng.random() < 0.6:
+            st.status = rng.choice(list(Status))
+    # the CWL translator also fills `Workflow.input_ports` (`workflow.input_ports[port_name] = input_port.name`)
+    for p in rng.sample(ports, min(len(ports), rng.randint(0, 2))):
+        wf.input_ports[rs(rng)] = p.name
     return wf, ports
 
 
@@ -371,6 +423,94 @@ def rewire(rng, wf, ports):
     return changed + 1
 
 
+def _conns(d):
+    return ",".join(sorted(f"{hx(k)}={hx(v)}" for k, v in d.items())) or "-"
+
+
+def show_wf(w):
+    """the structure the record model (`SFV/Model/WorkflowStore.lean`, driver `Drivers/C08.lean`) prints for a workflow"""
+    ps = sorted(f"{hx(n)}:{hx(type(p).__name__)}" for n, p in w.ports.items())
+    ss = sorted(f"{hx(n)}:{hx(type(st).__name__)}:{st.status.value}:{_conns(st.input_ports)}:{_conns(st.output_ports)}"
+                for n, st in w.steps.items())
+    return ",".join(ps) + "|" + ";".join(ss)
+
+
+def _vkey(v):
+    return json.dumps(v, sort_keys=True, default=str)
+
+
+def enc_token(t, table):
+    """preorder words of a token value for `tsave` of Drivers/C08.lean; plain values are numbered through `table`"""
+    tag = hx(t.tag)
+    if isinstance(t, ListToken):
+        return ["L", tag, str(len(t.value))] + [w for x in t.value for w in enc_token(x, table)]
+    if isinstance(t, ObjectToken):
+        return ["O", tag, str(len(t.value))] + [w for k, x in t.value.items() for w in [hx(k)] + enc_token(x, table)]
+    if isinstance(t, JobToken):
+        return ["J", tag, "0", str(int(t.recoverable)), str(len(t.value.inputs))] + [
+            w for k, x in t.value.inputs.items() for w in [hx(k)] + enc_token(x, table)]
+    stored = {"status": t.value.value} if isinstance(t, TerminationToken) else t.value      # TerminationToken._save_value
+    return ["P", tag, str(table.setdefault(_vkey(stored), len(table))), str(int(t.recoverable))]
+
+
+async def rows_tree(conn, tid, table):
+    """what the `token` / `recoverable` tables hold below a root row, read with plain SQL and json (no StreamFlow loader involved)"""
+    async with conn.execute("SELECT type, tag, value FROM token WHERE id = ?", (tid,)) as cur:
+        row = await cur.fetchone()
+    if row is None:
+        return "?"
+    async with conn.execute("SELECT 1 FROM recoverable WHERE id = ?", (tid,)) as cur:
+        rcv = "1" if await cur.fetchone() is not None else "0"
+    cls, tag, value = row[0].rsplit(".", 1)[-1], hx(row[1]), json.loads(row[2])
+    if cls == "ListToken":
+        return f"L({tag},{rcv},[" + ",".join([await rows_tree(conn, i, table) for i in value]) + "])"
+    if cls == "ObjectToken":
+        return f"O({tag},{rcv},{{" + ",".join([hx(k) + "=" + await rows_tree(conn, i, table) for k, i in value.items()]) + "})"
+    if cls == "JobToken":
+        inputs = value["job"]["params"]["inputs"]
+        return f"J({tag},{rcv},{{" + ",".join([hx(k) + "=" + await rows_tree(conn, i, table) for k, i in inputs.items()]) + "})"
+    return f"P({tag},{rcv},{table.get(_vkey(value), '?')})"
+
+
+class ModelTrace:
+    """replays on the record model what is done to the real workflow: only what is new since the last call is sent"""
+
+    def __init__(self, wf):
+        self.lines, self.expect = [f"wnew {hx(wf.name)}"], ["ok"]
+        self.ports, self.steps, self.conns = set(), set(), set()
+
+    def delta(self, wf):
+        for n, p in wf.ports.items():
+            if n not in self.ports:
+                self.ports.add(n)
+                self.lines.append(f"wport {hx(n)} {hx(type(p).__name__)}")
+                self.expect.append("ok")
+        for n, st in wf.steps.items():
+            if n not in self.steps:
+                self.steps.add(n)
+                self.lines.append(f"wstep {hx(n)} {hx(type(st).__name__)} {st.status.value}")
+                self.expect.append("ok")
+            for cmd, d in (("win", st.input_ports), ("wout", st.output_ports)):
+                for dep, port in d.items():
+                    if (n, cmd, dep, port) not in self.conns:
+                        self.conns.add((n, cmd, dep, port))
+                        self.lines.append(f"{cmd} {hx(n)} {hx(dep)} {hx(port)}")
+                        self.expect.append("ok")
+
+    def save(self, wf, first):
+        self.delta(wf)
+        # the hypotheses of `load_save_workflow`, evaluated independently here
+        wf_ok = all(p in wf.ports for st in wf.steps.values() for p in [*st.input_ports.values(), *st.output_ports.values()]) and all(
+            len(set([*st.input_ports.values(), *st.output_ports.values()])) == len(st.input_ports) + len(st.output_ports)
+            for st in wf.steps.values())
+        self.lines.append("wsave")
+        self.expect.append(f"ok=1 fresh={int(first)} wf={int(wf_ok)}")
+
+    def loaded(self, w, copy):
+        self.lines += ["wload", "wcopy"]
+        self.expect += [show_wf(w), "noids|" + show_wf(copy)]
+
+
 async def one_case(seed, context):
     try:
         return await _one_case(seed, context)
@@ -385,11 +525,14 @@ async def _one_case(seed, context):
     rng = random.Random(seed)
     wf, ports = build_workflow(rng, context)
     db = context.database
+    trace = ModelTrace(wf)
+    trace.save(wf, True)
     await wf.save(db)
     # multi-save history: the saved workflow is rewired and saved again (once or twice) before it is loaded
     resaves = 0
     for _ in range(rng.choice([0, 1, 1, 2])):
         rewire(rng, wf, ports)
+        trace.save(wf, False)
         await wf.save(db)
         resaves += 1
     tokens = [gen_token(rng) for _ in range(rng.randint(1, 4))]
@@ -420,13 +563,32 @@ async def _one_case(seed, context):
 
     w1, t1 = await load()
     w2, t2 = await load()
+    # known finding: `Workflow.input_ports` is neither saved nor loaded. Reported once per case, then left out of the comparison
+    # (only in exactly that shape: non-empty before, empty after) so that every other difference stays visible.
+    lost_inputs = bool(original.get("input_ports")) and dump(w1).get("input_ports") == {}
+    strip = {"on": False, "orig": None}
+
+    def D(o):
+        d = dump(o)
+        if strip["on"] and d.get("input_ports") in ({}, strip["orig"]):
+            d = {k: v for k, v in d.items() if k != "input_ports"}
+        return d
+
+    if lost_inputs:
+        res["diffs"].append(("load#1", "workflow-input-ports", f"Workflow.input_ports was {original['input_ports']} when saved and is {{}} after load"))
+        strip["on"], strip["orig"] = True, original["input_ports"]
+        original = D(wf)
     INT_FLAGS.clear()
-    dump(w1)
+    D(w1)
     if INT_FLAGS:
         res["diffs"].append(("load#1", "deployment-flags", f"DeploymentConfig {INT_FLAGS[0]} was saved as a bool and is loaded as an int (0/1)"))
+    for label, w in (("load#1", w1), ("load#2", w2)):
+        fp = foreign_ports(w)
+        if fp:
+            res["diffs"].append((label, "port-identity", fp[0]))
     for label, w, ts in (("load#1", w1, t1), ("load#2", w2, t2)):
-        if dump(w) != original:
-            res["diffs"].append((label, "workflow", first_diff(original, dump(w))))
+        if D(w) != original:
+            res["diffs"].append((label, "workflow", first_diff(original, D(w))))
         for a, b in zip(tok_orig, [dump(t) for t in ts]):
             if a != b:
                 res["diffs"].append((label, "token", first_diff(a, b)))
@@ -435,28 +597,44 @@ async def _one_case(seed, context):
     # two loads are independent: write into everything reachable from load #1
     nmut = mutate(w1) + sum(mutate(t) for t in t1)
     res["mutations"] = nmut
-    if dump(w2) != original:
-        res["diffs"].append(("load#2 after mutating load#1", "workflow", first_diff(original, dump(w2))))
+    if D(w2) != original:
+        res["diffs"].append(("load#2 after mutating load#1", "workflow", first_diff(original, D(w2))))
     for a, b in zip(tok_orig, [dump(t) for t in t2]):
         if a != b:
             res["diffs"].append(("load#2 after mutating load#1", "token", first_diff(a, b)))
     w3, t3 = await load()
-    if dump(w3) != original:
-        res["diffs"].append(("fresh load after mutating load#1 (stored record changed)", "workflow", first_diff(original, dump(w3))))
+    if D(w3) != original:
+        res["diffs"].append(("fresh load after mutating load#1 (stored record changed)", "workflow", first_diff(original, D(w3))))
     for a, b in zip(tok_orig, [dump(t) for t in t3]):
         if a != b:
             res["diffs"].append(("fresh load after mutating load#1 (stored record changed)", "token", first_diff(a, b)))
     # a deep copy through the workflow builder: same structure, no persistent identity
     wb = WorkflowBuilder(db, deep_copy=True)
     w4 = await wb.load_workflow(wf.persistent_id)
-    d4 = dump(w4)
-    want = json.loads(json.dumps(original))
+    d4 = D(w4)
+    def initial(d):
+        # the builder restores the initial state of every step it copies (`step.status = Status.WAITING`)
+        d = json.loads(json.dumps(d))
+        for st in d.get("steps", {}).values():
+            if isinstance(st, dict) and "status" in st:
+                st["status"] = 0
+        return d
+
+    want = initial(original)
     want["name"] = d4.get("name")              # the copy gets a fresh name
-    if strip_wf(d4, w4.name) != strip_wf(want, w4.name) and strip_wf(d4, w4.name) != strip_wf(json.loads(json.dumps(original)), wf.name):
-        res["diffs"].append(("WorkflowBuilder(deep_copy=True)", "workflow", first_diff(strip_wf(json.loads(json.dumps(original)), wf.name), strip_wf(d4, w4.name))))
+    if strip_wf(d4, w4.name) != strip_wf(want, w4.name) and strip_wf(d4, w4.name) != strip_wf(initial(original), wf.name):
+        res["diffs"].append(("WorkflowBuilder(deep_copy=True)", "workflow", first_diff(strip_wf(initial(original), wf.name), strip_wf(d4, w4.name))))
     if w4.persistent_id is not None or any(s.persistent_id is not None for s in w4.steps.values()) or any(
             p.persistent_id is not None for p in w4.ports.values()):
         res["diffs"].append(("WorkflowBuilder(deep_copy=True)", "persistent_id", "a copied entity kept a persistent id"))
+    trace.loaded(w3, w4)
+    # the stored rows of every token value against the Lean model of `Token.save`
+    table = {}
+    async with db.connection as conn:
+        for t in tokens:
+            trace.lines.append("tsave " + " ".join(enc_token(t, table)))
+            trace.expect.append(await rows_tree(conn, t.persistent_id, table))
+    res["model"] = (trace.lines, trace.expect)
     return res
 
 
@@ -490,7 +668,8 @@ def first_diff(a, b, path="$"):
 class C08(Property):
     pid = "C08"
     title = "Saving then loading a workflow reproduces it exactly"
-    lean_targets = ["SFV.Props.C08"]
+    lean_targets = ["SFV.Props.C08", "SFV.Model.Proto"]
+    drivers = [DRIVER]
     props_files = ["SFV/Props/C08.lean"]
     drivers = []
     translators = [persist.generate]
@@ -517,18 +696,22 @@ class C08(Property):
                  "recursive value type; structural differential check on random workflow graphs against a real database")
     level_text = ("grade B: generated table of the 60 `_save_additional_params`/`_load` pairs proved closed (every key read is saved, "
                   "through inheritance); token values (plain/list/object, any depth, tags, recoverable flags) proved to round-trip, and "
-                  "earlier loads proved stable under later saves; dependency rows proved complete over save / rewire / save histories "
+                  "earlier loads proved stable under later saves; whole-workflow `load (save w) = w` and the id-free builder copy proved on a "
+                  "record model of the four tables (ports, steps, params with port references, dependency rows) compared with the "
+                  "real save/load on every generated case; dependency rows proved complete over save / rewire / save histories "
                   "(shape of `Step.save` read from the source); whole-workflow round trip (incl. re-saves after rewiring and "
                   "concurrently saved values with a shared child), independence of two loads and the "
                   "deep-copy builder checked on random workflow graphs with the real classes")
-    level_note = ("Lean kernel, axioms within {propext, Classical.choice, Quot.sound}; the entity-level round trip `load (save e) = e` "
-                  "is not proved as a theorem (only its key-table obligation and the token part)")
+    level_note = ("Lean kernel, axioms within {propext, Classical.choice, Quot.sound}; the whole-workflow theorem treats parameter "
+                  "values other than port references as opaque (their keys are the table obligation); independence of two loads is "
+                  "sampled, not proved")
     assumptions = ["entities are built through their constructors with JSON-compatible parameter values"]
     quick_budget_s = 480          # real time (threads, database): generous under machine load
     min_nontrivial = 15
 
     def explore(self, ctx: Ctx) -> None:
         self._flag_reported = False
+        self._inputs_reported = False
         n = 40 if ctx.tier == "quick" else 500
         if ctx.mode == "search":
             n *= 2
@@ -550,6 +733,22 @@ class C08(Property):
             gc.enable()
         if len(results) < min(n, 15):
             ctx.extra["incomplete"] = True
+        lines, expect, owner = [], [], []
+        for r in results:
+            if "model" in r:
+                lines += r["model"][0]
+                expect += r["model"][1]
+                owner += [r["seed"]] * len(r["model"][0])
+        got = ctx.lean(DRIVER, lines)
+        bad = set()
+        for ln, gl, e, sd in zip(lines, got, expect, owner):
+            if ln == "wsave":
+                ctx.count("hypotheses:" + e)
+            if ln.startswith("tsave"):
+                ctx.count("token-rows:" + e[0])
+            if gl != e and sd not in bad:
+                bad.add(sd)
+                ctx.disagree("record model vs Workflow.save/load", f"workflow seed {sd}, `{ln}`: code {e[:300]!r}, Lean model {gl[:300]!r}", {"seed": sd})
         for r in results:
             ctx.case({"seed": r["seed"], "steps": r["steps"], "mutations": r.get("mutations")},
                      ("wf", r["seed"]) if len(r["steps"]) >= 3 else None, "workflow")
@@ -561,6 +760,12 @@ class C08(Property):
                     if not self._flag_reported:
                         self._flag_reported = True
                         ctx.fail("persist:deployment-flags:bool-loaded-as-int", f"{label}: {d}", {"seed": r["seed"]})
+                    continue
+                if what == "workflow-input-ports":
+                    ctx.count("workflow-input-ports-lost")
+                    if not self._inputs_reported:
+                        self._inputs_reported = True
+                        ctx.fail("persist:workflow-input-ports:not-saved", f"{label}: {d}", {"seed": r["seed"]})
                     continue
                 key = ("persist:" + what + ":" + ("exception" if what == "raises" else
                                                   "not-reproduced" if label.startswith("load#") and "after" not in label else
